@@ -14,7 +14,9 @@ Error values: `Err::Incomplete(Needed::Size(n))`, `Err::Error(e)` / `Err::Failur
 from absx import Out
 
 MODELLED = ('nom::bits::bits', 'nom::bits::streaming::take', 'nom::bits::complete::take', 'nom::sequence::tuple', 'nom::sequence::pair',
-            'nom::combinator::map_opt', 'nom::combinator::map', 'nom::bytes::streaming::take', 'nom::bytes::complete::take')
+            'nom::combinator::map_opt', 'nom::combinator::map', 'nom::bytes::streaming::take', 'nom::bytes::complete::take',
+            'nom::combinator::map_res', 'nom::combinator::verify', 'nom::bytes::complete::take_while', 'nom::bytes::complete::take_while1',
+            'nom::multi::fold_many0', 'nom::multi::many0')
 
 def ok(rest, val):
     return ('ctor', 'Ok', (('tuple', (rest, val)),))
@@ -22,7 +24,10 @@ def ok(rest, val):
 def incomplete(n):
     return ('ctor', 'Err', (('ctor', 'Err::Incomplete', (('ctor', 'Needed::Size', (('lit', n),)),)),))
 
-def error(inp, code, kind='Error'):
+def error(inp, code, kind='Error', external=None):
+    if external is not None:
+        # E::from_external_error(input, kind, e)
+        return ('ctor', 'Err', (('ctor', 'Err::' + kind, (('call', 'nom::error::FromExternalError::from_external_error', (inp, ('ctor', 'ErrorKind::' + code, ()), external), None),)),))
     return ('ctor', 'Err', (('ctor', 'Err::' + kind, (('call', 'nom::error::ParseError::from_error_kind', (inp, ('ctor', 'ErrorKind::' + code, ())), None),)),))
 
 def is_bytes(t):
@@ -63,6 +68,19 @@ def apply_parser(I, p, inp, node, st):
         else:
             res.append((('abn', o), o.st))
     return res
+
+def verdicts(I, pred, args, node, st):
+    """[(True / False, state)] + abnormal outcomes of the predicate value `pred` applied to args, each application decided (literal
+    evaluation: a verdict that is not a known boolean leaves the whole parser application opaque)"""
+    res, abn = [], []
+    for o in I.apply(pred, list(args), node, st):
+        if o.kind not in ('val', 'ret'):
+            abn.append(o); continue
+        ds = I.decide(o.val, o.st)
+        if len(ds) != 1:
+            raise Opaque()
+        res.append((ds[0][0], ds[0][1]))
+    return res, abn
 
 def summary(I, cal, args, node, st):
     try:
@@ -166,5 +184,106 @@ def _summary(I, cal, args, node, st):
                         outs.append(Out('val', error(inp, 'MapOpt'), o.st))
                     else:
                         raise Opaque()
+        return outs
+    if name == 'nom::combinator::map_res' and len(pargs) == 2:
+        # map_res(parser, f)(input): `let i = input.clone(); let (input, o1) = parser.parse(input)?; match f(o1) { Ok(o2) => Ok((input, o2)),
+        # Err(e) => Err(Err::Error(E::from_external_error(i, ErrorKind::MapRes, e))) }`
+        outs = []
+        for r, s in apply_parser(I, pargs[0], inp, node, st):
+            if r[0] == 'abn':
+                outs.append(r[1])
+            elif r[0] == 'err':
+                outs.append(Out('val', r[2], s))
+            else:
+                for o in I.apply(pargs[1], [r[2]], node, s):
+                    v = o.val
+                    if o.kind not in ('val', 'ret'):
+                        outs.append(o)
+                        continue
+                    if v[0] == 'tryerr':
+                        v = v[1]            # the closure left through `?` with this failure value
+                    if v[0] == 'ctor' and v[1] == 'Ok' and len(v[2]) == 1:
+                        outs.append(Out('val', ok(r[1], v[2][0]), o.st))
+                    elif v[0] == 'ctor' and v[1] == 'Err':
+                        outs.append(Out('val', error(inp, 'MapRes', external=v[2][0] if v[2] else ('tuple', ())), o.st))
+                    else:
+                        raise Opaque()
+        return outs
+    if name == 'nom::combinator::verify' and len(pargs) == 2:
+        # verify(first, second)(input): `let i = input.clone(); let (input, o) = first.parse(input)?; if second(o.borrow()) { Ok((input, o)) }
+        # else { Err(Err::Error(E::from_error_kind(i, ErrorKind::Verify))) }`
+        outs = []
+        for r, s in apply_parser(I, pargs[0], inp, node, st):
+            if r[0] == 'abn':
+                outs.append(r[1])
+            elif r[0] == 'err':
+                outs.append(Out('val', r[2], s))
+            else:
+                vs, abn = verdicts(I, pargs[1], [r[2]], node, s)
+                outs.extend(abn)
+                for truth, s2 in vs:
+                    outs.append(Out('val', ok(r[1], r[2]) if truth else error(inp, 'Verify'), s2))
+        return outs
+    if name in ('nom::bytes::complete::take_while', 'nom::bytes::complete::take_while1') and len(pargs) == 1 and is_bytes(inp):
+        # take_while(cond)(i) = i.split_at_position_complete(|c| !cond(c)); for &[u8]: `match self.iter().position(|c| predicate(*c)) {
+        # Some(i) => Ok(self.take_split(i)), None => Ok(self.take_split(self.input_len())) }` with take_split(n) = (self[n..], self[..n]);
+        # take_while1 = split_at_position1_complete(.., TakeWhile1): as above, but Some(0) and None on an empty input are
+        # Err(Err::Error(from_error_kind(self, TakeWhile1))).  `position` calls the predicate in order up to the first hit.
+        b = inp[1]
+        s, n, abn = st, len(b), []
+        for k, x in enumerate(b):
+            vs, a2 = verdicts(I, pargs[0], [('lit', x)], node, s)
+            if a2 or len(vs) != 1:
+                raise Opaque()
+            s = vs[0][1]
+            if not vs[0][0]:
+                n = k
+                break
+        if name.endswith('take_while1') and n == 0:
+            return [Out('val', error(inp, 'TakeWhile1'), s)]
+        return [Out('val', ok(('lit', b[n:]), ('lit', b[:n])), s)]
+    if name in ('nom::multi::fold_many0', 'nom::multi::many0') and len(pargs) in (1, 3) and (len(pargs) == 3) == name.endswith('fold_many0') and is_bytes(inp):
+        # fold_many0(f, init, g)(i): `let mut res = init(); let mut input = i; loop { let len = input.input_len(); match f.parse(input.clone()) {
+        # Ok((i, o)) => { if i.input_len() == len { return Err(Err::Error(from_error_kind(input, Many0))) } res = g(res, o); input = i; }
+        # Err(Err::Error(_)) => return Ok((input, res)), Err(e) => return Err(e) } }`;  many0(f) is the same loop with `acc.push(o)` on an
+        # initially empty Vec.  The loop is run exactly: each trip consumes at least one octet of the literal input, so it ends.
+        outs = []
+        if name.endswith('fold_many0'):
+            starts = []
+            for o in I.apply(pargs[1], [], node, st):
+                if o.kind in ('val', 'ret'):
+                    starts.append((inp, o.val, o.st))
+                else:
+                    outs.append(o)
+        else:
+            starts = [(inp, ('vec', ()), st)]
+        work = starts
+        for _trip in range(len(inp[1]) + 2):
+            nxt = []
+            for cur, acc, s in work:
+                for r, s2 in apply_parser(I, pargs[0], cur, node, s):
+                    if r[0] == 'abn':
+                        outs.append(r[1])
+                    elif r[0] == 'err':
+                        outs.append(Out('val', ok(cur, acc), s2) if r[1] == 'Err::Error' else Out('val', r[2], s2))
+                    elif not is_bytes(r[1]):
+                        raise Opaque()
+                    elif len(r[1][1]) == len(cur[1]):
+                        outs.append(Out('val', error(cur, 'Many0'), s2))
+                    elif name.endswith('fold_many0'):
+                        for o in I.apply(pargs[2], [acc, r[2]], node, s2):
+                            if o.kind in ('val', 'ret'):
+                                nxt.append((r[1], o.val, o.st))
+                            else:
+                                outs.append(o)
+                    elif acc[0] == 'vec':
+                        nxt.append((r[1], ('vec', acc[1] + (r[2],)), s2))
+                    else:
+                        raise Opaque()
+            work = nxt
+            if not work:
+                break
+        if work:
+            raise Opaque()
         return outs
     return None
